@@ -16,6 +16,7 @@ from __future__ import annotations
 import io
 import json
 import os
+import re
 import shutil
 import tempfile
 import warnings
@@ -352,6 +353,45 @@ def _stress_atoms(ver):
     return a
 
 
+_SIM_CLASSES = {}
+
+
+def _fake_simulation(kind, first_ver):
+    """A stand-in for the simulation object a convenience set reads (the Logger only calls the accessors named in
+    the set): the value behind the set's i-th column is 10 * (first_ver + i) + 1, the stamp of THAT definition."""
+    import numpy as _np
+    from ase import units
+
+    names = {"mc": ["Class", "Step", "Epot[eV]"], "md": ["Time[ps]", "Epot[eV]", "Ekin[eV]", "T[K]"], "opt": ["Class", "Step", "Time", "Epot[eV]", "Fmax[eV/A]"]}[kind]
+    val = {nm: 10 * (first_ver + i) + 1 for i, nm in enumerate(names)}
+
+    class _Atoms:
+        def get_potential_energy(self):
+            return float(val["Epot[eV]"])
+
+        def get_kinetic_energy(self):
+            return float(val["Ekin[eV]"])
+
+        def get_temperature(self):
+            return float(val["T[K]"])
+
+        def get_forces(self):
+            f = _np.zeros((3, 3))
+            f[1] = [0.0, float(val["Fmax[eV/A]"]), 0.0]
+            f[2] = [0.5, 0.0, 0.0]
+            return f
+
+    cname = f"S{val.get('Class', 0)}"
+    cls = _SIM_CLASSES.get(cname)
+    if cls is None:
+        cls = _SIM_CLASSES[cname] = type(cname, (), {})
+    sim = cls()
+    sim.atoms = _Atoms()
+    sim.step_count = sim.nsteps = val.get("Step", 0)
+    sim.get_time = lambda: val["Time[ps]"] * 1000 * units.fs
+    return sim, len(names)
+
+
 def logger_fields(rep, tier):
     """LoggerFields.tla: every history of add_field / remove_fields calls enumerated by TLC is replayed on a real
     Logger; the header must name, and a row must hold a value of, exactly the columns the specification expects."""
@@ -388,6 +428,10 @@ def logger_fields(rep, tier):
                         lg.add_field(names, (lambda v=ver, k=len(arg["n"]): [10.0 * v + i + 1 for i in range(k)]), " ".join(["{:8.1f}"] * len(arg["n"])), is_array=True)
                     else:
                         lg.add_field(arg["n"][0], (lambda v=ver: 10.0 * v + 1), "{:8.1f}")
+                elif op == "set":
+                    sim, k = _fake_simulation(arg, ver + 1)
+                    {"mc": lg.add_mc_fields, "md": lg.add_md_fields, "opt": lg.add_opt_fields}[arg](sim)
+                    ver += k
                 else:
                     lg.remove_fields(arg)
             lg.write_header()
@@ -396,13 +440,24 @@ def logger_fields(rep, tier):
             rep.violation(f"logger-fields:raise:{type(ex).__name__}", f"configuring a logger with {case['hist']} and writing header + row raised {ex!r}", {"case": case})
             lg.close()
             continue
-        lines = buf.getvalue().split("\n")
+        text = buf.getvalue()
+        lines = text.split("\n")
         lg.close()   # (every text observer registers itself with atexit and lives until it is closed: keep that list short)
         want_h = [c["name"] for c in case["columns"]]
         want_r = [10.0 * c["ver"] + c["comp"] for c in case["columns"]]
         got_h = lines[0].split()
         try:
-            got_r = [float(x) for x in lines[1].split()]
+            got_r = lines[1].split()
+            for i, c in enumerate(case["columns"]):
+                if i >= len(got_r):
+                    break
+                if c["name"] == "Class":     # the class name carries the stamp
+                    got_r[i] = float(got_r[i][1:]) if got_r[i].startswith("S") else got_r[i]
+                elif c["name"] == "Time":    # wall clock HH:MM:SS: any well-formed time is the expected value
+                    got_r[i] = want_r[i] if re.fullmatch(r"[0-2]\d:[0-5]\d:[0-6]\d", got_r[i]) else got_r[i]
+                else:
+                    got_r[i] = float(got_r[i])
+            got_r = [float(x) if not isinstance(x, float) else x for x in got_r]
         except Exception:  # noqa: BLE001
             got_r = None
         if n % 1000 == 1:
@@ -410,7 +465,7 @@ def logger_fields(rep, tier):
         rep.count(("logger-fields", len(case["hist"]), len(want_h)), nontrivial=len(case["hist"]) > 1)
         if len(lines) != 3 or lines[2] != "" or got_h != want_h or got_r != want_r:
             what = "header" if got_h != want_h else "row"
-            rep.violation(f"logger-fields:{what}", f"after {case['hist']} the logger writes header {got_h} and row {got_r}; the specification says columns {want_h} with values {want_r}", {"case": case, "text": buf.getvalue()})
+            rep.violation(f"logger-fields:{what}", f"after {case['hist']} the logger writes header {got_h} and row {got_r}; the specification says columns {want_h} with values {want_r}", {"case": case, "text": text})
     return r.distinct, n
 
 
